@@ -82,6 +82,12 @@ CLAIMED.update({
             "Interleavings come from the Go scheduler; virtual time makes timer-vs-shutdown orders reachable. A window narrower than scheduler granularity can be missed.", "DESIGN.md 4/C06"),
 })
 
+CLAIMED.update({
+    "C07": ("model-based property testing with silent clients: generated queue sizes, stall/resume points, publication bursts, calls and kills involving silent sessions; exact reference-model expectations for every reading session at zero virtual latency, exact queue-prefix check for a silent session that reads again, bounded-hold check for the result-retry exception; deadlock/leak/hang are verdicts",
+            "Exploration under a virtual clock: 'without delay' is an equality (replies and deliveries in the step of the request); a blocking send or unbounded retry shows up as a synctest deadlock, a missing delivery or a message the router has not accepted after two retry periods. Sampling.",
+            "Calls whose callee or caller is silent are outside the exact model (accepted either way, bounded hold asserted); serialised transports get two extra buffered messages; callees are in-process so that a held handler is observable.", "DESIGN.md 4/C07"),
+})
+
 NOT_YET = {}
 
 def main():
